@@ -82,3 +82,23 @@ REGISTRY = {
     "C17": _c17,
     "C18": _c18,
 }
+
+
+# what each check decides / does not decide (goes into MANIFEST.json)
+CLAIMS = {
+    "C01": {"decided": "Static rules over MIR, all call sites/paths: every string/key command named in the property has a dispatcher arm reaching the engine with the effect class (read-only vs mutating) and storage primitive its reference semantics need; no validation refusal is reachable after a dataset mutation in any handler or engine method (failure atomicity).",
+            "not_decided": "that each reply value and resulting dataset equal the Redis reference (index arithmetic, NX/XX truth tables, glob semantics)."},
+    "C02": {"decided": "Lazy expiry: every shard-map lookup in an engine method flows into is_expired(); the sweeper deletes only under a re-check of the stored deadline in the same lock scope; the deadline is written only by dedicated setters called from dedicated TTL functions; inserts store a fresh StoredValue or (RENAME) the removed one; expiry index updated with the deadline.",
+            "not_decided": "real-time exactness of Instant comparisons, TTL reply rounding, sweeper scheduling."},
+    "C05": {"decided": "Error discipline and reply counting of the connection loop on all CFG paths: an Err from executing a frame is converted to an error reply unless Connection/Io; exactly one reply push per loop iteration and no mid-batch exit; protocol errors are queued/answered and the connection closed; line-framed reply payloads pass a CR/LF filter; nothing reachable from EXEC yields NoResponse.",
+            "not_decided": "TCP segmentation independence of the whole I/O state machine, reply order under partial writes."},
+    "C07": {"decided": "Queue gate dominance in process_frame, FIFO-only use of the queue, one result per queued command with no early exit, transaction-state reset on every exit of EXEC/DISCARD (and before execution), no event-loop re-entry from EXEC, identity of the connection handed to re-dispatched commands.",
+            "not_decided": "isolation against non-command threads (sweeper, replica apply); equality of each queued command's reply with its stand-alone reply."},
+    "C08": {"decided": "Every dataset mutation site in the storage engine has a mark_modified of the same key (provenance) in the same function; was_modified_since compares the stamp and consults expiry; register_watch order; the abort test dominates execution and abort edges execute nothing; EXEC/DISCARD/UNWATCH clear the watch set on all paths.",
+            "not_decided": "no-false-abort for hash collisions; timing of expiry vs EXEC."},
+    "C17": {"decided": "Every privileged call on the per-frame path is dominated by the pass edge of the authentication gate and unreachable from its refuse edge; nothing privileged runs per frame outside process_frame; Authenticated is stored only in three justified contexts (full password equality, per connection); failed AUTH has no side effect.",
+            "not_decided": "timing side channels of the password comparison."},
+    "C18": {"decided": "Database-index flow (inferred through parameters, struct fields and closure captures from the engine's db position): no constant database at any use on the command path, a function's own database parameter is passed on, a callee never re-derives a database its caller already resolved; SELECT's store is bounded by database_count().",
+            "not_decided": "aliasing of key spaces inside the engine (databases[db] indexing is by construction)."},
+}
+NOT_APPLICABLE = {}
